@@ -72,10 +72,16 @@ def histories(draw, multi_objective: bool = False):
         if full and f is None:
             f = draw(_entry(obj_dim, allow_scalar=not multi_objective))
         c = []
+        feasible_intent = draw(st.booleans())  # half of the points are feasible by construction
         for con in cons:
-            e = draw(_entry(con["dim"]))
-            if full and e is None:
+            if feasible_intent:
+                pool = [0.0] if con["type"] == "eq" else [-2.0, -1.0, -0.5, -0.1, -0.01, 0.0]
+                e = {"kind": draw(st.sampled_from(["float", "arr"])) if con["dim"] == 1 else "arr",
+                     "v": draw(st.lists(st.sampled_from(pool), min_size=con["dim"], max_size=con["dim"]))}
+            else:
                 e = draw(_entry(con["dim"]))
+                if full and e is None:
+                    e = draw(_entry(con["dim"]))
             c.append(e)
         points.append({"x": x, "f": f, "c": c, "grad": draw(st.booleans())})
     return {
@@ -291,6 +297,11 @@ def case_selection(p, ctx):
             if len(ms) >= 2:
                 ctx.nontriv(("infeas", p["cons"], te, ti, p["points"][: k + 1]))
                 ctx.cls("prefix_infeasible_>=2_distinct_measures")
+        if c_names and feas_with_obj:
+            best_i = min(feas_with_obj, key=lambda i: (objs[i], i))
+            earlier_with_grad = any(i < best_i and ("@" + c_names[0]) in recs[i][1] for i in feas_with_obj)
+            if earlier_with_grad and ("@" + c_names[0]) not in recs[best_i][1]:
+                ctx.cls("best_feasible_point_without_gradient_after_feasible_point_with_gradient")
         if len(feas_with_obj) >= 2 and len({objs[i] for i in feas_with_obj}) < len(feas_with_obj):
             ctx.cls("tie_among_feasible")
         if any(isinstance(v, np.ndarray) and np.isnan(v).any() or isinstance(v, float) and math.isnan(v) for v in out.values()):
